@@ -375,22 +375,36 @@ func (f *Frame) callContract(in ssa.Instruction, ct *Contract, callee *ssa.Funct
 		f.notErrsOf(res, guard, func(g string) bool { return !e.P.mayReturnErr(callee, g) })
 	}
 	env2 := &specEnv{f: f, st: st, old: old, names: bind, callSite: true}
-	// ghost assignments of the callee at its return
-	for _, sc := range ct.Sets {
-		sortS := e.P.ghostSort(sc.Ghost)
-		nv := f.specTerm(sc.Expr, env2)
-		cur := e.getHeap(st, "ghost_"+sc.Ghost, sortS)
-		prev := e.getHeap(old, "ghost_"+sc.Ghost, sortS)
-		if sc.Key != nil {
-			oldEnv := *env2
-			oldEnv.st = old
-			nv.T = fmt.Sprintf("(store %s %s %s)", prev, f.specTerm(sc.Key, &oldEnv).T, nv.T)
+	// ghost assignments of the callee at its return: performed in order on the state at return, in which the assigned
+	// ghosts still have their values from before the call (so "sets n = n + 1" counts)
+	if len(ct.Sets) > 0 {
+		tmp := st.clone()
+		final := map[string]string{}
+		for _, sc := range ct.Sets {
+			sortS := e.P.ghostSort(sc.Ghost)
+			if _, seen := final[sc.Ghost]; !seen {
+				final[sc.Ghost] = e.getHeap(st, "ghost_"+sc.Ghost, sortS)
+				tmp.heaps["ghost_"+sc.Ghost] = e.getHeap(old, "ghost_"+sc.Ghost, sortS)
+			}
 		}
-		if sc.Cond != nil {
-			c := f.specBool(sc.Cond, env2)
-			e.assume(guard, eq(cur, ite(c, nv.T, prev)))
-		} else {
-			e.assume(guard, eq(cur, nv.T))
+		envT := &specEnv{f: f, st: tmp, old: old, names: bind, callSite: true}
+		for _, sc := range ct.Sets {
+			sortS := e.P.ghostSort(sc.Ghost)
+			nv := f.specTerm(sc.Expr, envT)
+			prev := e.getHeap(tmp, "ghost_"+sc.Ghost, sortS)
+			if sc.Key != nil {
+				oldEnv := *envT
+				oldEnv.st = old
+				nv.T = fmt.Sprintf("(store %s %s %s)", prev, f.specTerm(sc.Key, &oldEnv).T, nv.T)
+			}
+			val := nv.T
+			if sc.Cond != nil {
+				val = ite(f.specBool(sc.Cond, envT), nv.T, prev)
+			}
+			tmp.heaps["ghost_"+sc.Ghost] = e.define("gs_"+sc.Ghost, sortS, val)
+		}
+		for g, cur := range final {
+			e.assume(guard, eq(cur, tmp.heaps["ghost_"+g]))
 		}
 	}
 	for _, en := range ct.Ensures {
